@@ -406,10 +406,8 @@ func lexTaskCommands(l *Lexer) lexFn {
 		case r == '\n':
 			// If there's a newline, might be more commands on the next line
 			l.backup()
-			if strings.HasSuffix(l.all(), "\r") {
-				// The line ends in \r\n, the carriage return is not part of the command
-				l.pos--
-			}
+			// The line may end in \r\n, a trailing carriage return is never part of the command
+			l.pos -= len(l.all()) - len(strings.TrimRight(l.all(), "\r"))
 			l.emit(token.COMMAND)
 			l.skipWhitespace()
 		case strings.HasPrefix(l.rest(), token.LINTERP.String()):
@@ -426,6 +424,8 @@ func lexTaskCommands(l *Lexer) lexFn {
 			if strings.HasSuffix(l.all(), " ") {
 				l.pos--
 			}
+			// Nor do we want a trailing carriage return, the same as at the end of a line
+			l.pos -= len(l.all()) - len(strings.TrimRight(l.all(), "\r"))
 			if len(l.all()) != 0 {
 				// If we actually have a command and not just an empty token
 				l.emit(token.COMMAND)
